@@ -161,11 +161,8 @@ func c10BindMisc(c *vcommon.Case) {
 			ops = append(ops, bindOp{fn: "ext_misc_print_num_version_1", args: []bindArg{aV(r.Uint64())}})
 		case k < 16:
 			// expensive: gossamer builds a whole wazero runtime (host module included) before it looks at the blob
-			if r.Chance(1, 8) {
-				ops = append(ops, bindOp{fn: "ext_misc_runtime_version_version_1", args: []bindArg{aS(d)}})
-			} else {
-				ops = append(ops, bindOp{fn: vcommon.Pick(r, bindHashFns), args: []bindArg{aS(d)}})
-			}
+			// (driven by the fixed group bind-rtversion instead)
+			ops = append(ops, bindOp{fn: vcommon.Pick(r, bindHashFns), args: []bindArg{aS(d)}})
 		case k < 17:
 			ops = append(ops, bindOp{fn: "ext_logging_log_version_1",
 				args: []bindArg{aV(uint64(r.Intn(5))), aS([]byte("verif-target")), aS([]byte("msg " + vcommon.Hex(d)))}})
@@ -346,7 +343,7 @@ func TestVerifC10Bind(t *testing.T) {
 		"ext_crypto_ed25519_verify_version_1", "ext_crypto_sr25519_verify_version_1", "ext_crypto_sr25519_verify_version_2"} {
 		r.Floor("bind_call_"+fn, 8)
 	}
-	r.Floor("bind_call_ext_misc_runtime_version_version_1", 5)
+	r.Floor("bind_call_ext_misc_runtime_version_version_1", 4)
 	r.Floor("bind_oracle_root_equal_nonempty", 200)
 	r.Floor("bind_trie_failure_returned", 40)
 	r.Floor("bind_oracle_blake2_256_equal", 40)
@@ -365,4 +362,16 @@ func TestVerifC10Bind(t *testing.T) {
 		c10BindTrie(c, in)
 	})
 	r.Cases("bind-misc", r.Scale(400), c10BindMisc)
+	// ext_misc_runtime_version: each call makes gossamer build a complete runtime (135 MB memory) before it rejects the
+	// blob, so it gets four fixed cases only (the answer for a non-runtime blob is None in both worlds)
+	blobs := [][]byte{{}, {0x00, 0x61, 0x73, 0x6d, 0x01, 0x00, 0x00, 0x00}, []byte("not a runtime"), verifWasm}
+	r.Fixed("bind-rtversion", len(blobs), func(c *vcommon.Case) {
+		_, wa, wb, ok := bindWorlds(c)
+		if !ok {
+			return
+		}
+		if outs, ok := bindDiff(c, wa, wb, []bindOp{{fn: "ext_misc_runtime_version_version_1", args: []bindArg{aS(blobs[c.Idx])}}}); ok {
+			c.Distinct("rtversion|" + bindOutcomeText(outs[0]))
+		}
+	})
 }
